@@ -158,6 +158,30 @@ theorem C02_opSave_tag_ids_dense (c : Collection) (dir : Option PPath) (d : Doc)
 example : ∃ d, WF exEval ∧ opSave exEval none = .ok d :=
   ⟨_, wf_exEval, (C02_opSave_refines _ _ wf_exEval).trans (save_total _)⟩
 
+/-- field by field: every identifier held by a reference field of the schema is defined in the list
+    of the kind the field points to -/
+theorem C02_opSave_rows_defined (c : Collection) (dir : Option PPath) (d : Doc) (hwf : WF c)
+    (hs : opSave c dir = .ok d) : ∀ r ∈ refRows, ∀ x ∈ r.get d, x ∈ defs d r.kind :=
+  C02_rows_defined c dir d ((C02_opSave_refines c dir hwf) ▸ hs)
+example : ∃ d, WF exEval ∧ opSave exEval none = .ok d :=
+  ⟨_, wf_exEval, (C02_opSave_refines _ _ wf_exEval).trans (save_total _)⟩
+
+/-- the operational writer defines exactly the reachable objects, kind by kind -/
+theorem C02_opSave_exact_objects (c : Collection) (dir : Option PPath) (d : Doc) (hwf : WF c)
+    (hs : opSave c dir = .ok d) (k : Kind) (key : String) :
+    key ∈ (if k = .tag then tagDefKeys d else defs d k) ↔ ∃ o, Reachable c o ∧ o.kind = k ∧ Obj.key o = key :=
+  C02_exact_objects c dir d ((C02_opSave_refines c dir hwf) ▸ hs) k key
+example : ∃ d, WF exEval ∧ opSave exEval none = .ok d :=
+  ⟨_, wf_exEval, (C02_opSave_refines _ _ wf_exEval).trans (save_total _)⟩
+
+/-- the operational tag adapter defines a tag content once -/
+theorem C02_opSave_tag_contents_nodup (c : Collection) (dir : Option PPath) (d : Doc) (hwf : WF c)
+    (hs : opSave c dir = .ok d) : ((lst d.tags).map (fun t => (t.key, t.value))).Nodup :=
+  C02_tag_contents_nodup c dir d ((C02_opSave_refines c dir hwf) ▸ hs)
+example : ∃ d, WF exEval ∧ opSave exEval none = .ok d :=
+  ⟨_, wf_exEval, (C02_opSave_refines _ _ wf_exEval).trans (save_total _)⟩
+
+
 /-! ### the operational model is order-sensitive where the code is
 
 `opSaveEarlyTags` is the evaluation-set writer as it was before the repair: it reads `values()`
